@@ -312,7 +312,7 @@ func (r *runState) scenarioStream() {
 			"bytes": len(pl.data), "writes": len(pl.writes), "reads": pl.nReads, "first_writes": pl.writes[:min(6, len(pl.writes))],
 			"read_sizes": pl.reads[:min(6, len(pl.reads))], "got": pl.got,
 		}
-		c.Finger("dir", d, len(pl.data), len(pl.writes), hex.EncodeToString(pl.hash))
+		r.finger("dir", d, len(pl.data), len(pl.writes), hex.EncodeToString(pl.hash))
 		if len(pl.writes) >= 3 && pl.nReads >= 3 && len(pl.data) >= 1024 {
 			nontrivial = true
 		}
